@@ -14,21 +14,22 @@ CONFIG = {
             'threads, indexing_mode 0/1, 32/64-bit indices, csv float/int32/int64); a case is non-trivial when the '
             'document is non-empty; distinct = distinct hash of the op list',
     'assumptions': ['the numeric conversions are a parameter of the model (contract Conv.Local: the result depends only on '
-                    'the run of non-EOL, non-NUL bytes at the start position); the executable driver uses ConvSimple, an '
-                    'emulation of dmlc::strtof / ParseUnsignedInt / libc atoll, strtoll (C14 owns their correctness)',
+                    'the run of non-EOL, non-NUL bytes at the start position); the executable driver takes strtof / ParseUnsignedInt from '
+                    'the C14 model DmlcModel.StrToNum.Model (Gen/StrToNum regenerated with this check) and emulates libc atoll / '
+                    'strtoll in ConvSimple',
                     'chunk cuts of the InputSplit fall directly after an end-of-line byte (C03)',
                     'x86-64, binary32 round-to-nearest-even, char compared as byte values < 0x80 only',
                     'indexing_mode >= 0 (auto-detection excluded by the property)'],
     'trusted_base': ['modelled by hand, tied by correspondence only: control flow of ParsePair / ParseTriple / '
                      'IgnoreCommentAndBlank / the three ParseBlock bodies / BackFindEndLine / FillData / ParserImpl::Next / '
-                     'GetBlock / operator[]'],
-    'partial': ['C11_block_is_concat_of_lines_csv_statement: stated, not proved (the csv cell / line loop has no list '
-                'specification yet; csv is covered by correspondence + oracle only); libsvm and libfm are proved in full',
-                'C11_thread_invariant_nary_* / C11_chunk_invariant_* / C11_part_invariant_* (libsvm, libfm): proved for any '
+                     'GetBlock / operator[]; dmlc::strtof / ParseUnsignedInt as modelled by C14 (StrToNum), libc atoll / strtoll as emulated in ConvSimple'],
+    'partial': ['C11_thread_invariant_nary_* / C11_chunk_invariant_* / C11_part_invariant_* (libsvm, libfm, csv): proved for any '
                 'number of pieces against the abstract hypothesis "every cut is at / directly after an end-of-line byte"; '
                 'that FillData\'s nstep/sbegin/send + BackFindEndLine slices have this shape is tied by correspondence (`fill` '
                 'ops compare slices and blocks), not by a theorem; for chunks / parts the hypothesis is C03\'s',
-                'C11_trailing_bytes_irrelevant_*, C11_blank_and_comment_lines_*: libsvm + libfm only'],
+                'csv theorems (C11_block_is_concat_of_lines_csv, cuts, trailing bytes) carry the extra hypothesis that the '
+                'text has no NUL byte inside (the locality contract of conv.cell does not speak about a cell that is white '
+                'space up to a NUL)'],
 }
 
 MANIFEST = {
